@@ -59,14 +59,16 @@ fn main() {
     let ctx = Ctx::from_env("C19");
     ctx.rule("case = osu!standard grammar map (kinds circle / sliders / buzz / long slider / spinner; hit sounds {0,2,4,8,12}; gaps; stacked / far positions; timing presets with velocity points; format versions 14 and 7); per case: taiko, catch and mania conversion under no key mod and 1K-10K; oracle = times non-decreasing, durations >= 0, control points strictly ordered; taiko: one hit sound per object; mania: cs == key mod value else in [4,7], every x maps to a column < cs (floor(x*cs/512)), x finite and >= 0; catch: objects and sounds untouched; non-trivial = map has objects");
 
-    let n_max = ctx.pick(3, 4);
-    let variants: Vec<(u32, Timing, &str)> = if ctx.quick() { vec![(14, Timing::T0, "v14"), (7, Timing::T1, "v7-velocity")] } else { vec![(14, Timing::T0, "v14"), (7, Timing::T1, "v7-velocity"), (14, Timing::T6, "v14-two-timing"), (5, Timing::T3, "v5-kiai")] };
+    // quick: N <= 3 over the 48-symbol alphabet; thorough: N <= 3 over the 240-symbol alphabet and N <= 4 over the 48-symbol one
+    let variants: Vec<(u32, Timing, &str)> = if ctx.quick() { vec![(14, Timing::T0, "v14"), (7, Timing::T1, "v7-velocity"), (14, Timing::T7, "v14-kiai-velocity-toggles")] } else { vec![(14, Timing::T0, "v14"), (7, Timing::T1, "v7-velocity"), (14, Timing::T7, "v14-kiai-velocity-toggles"), (14, Timing::T6, "v14-two-timing"), (5, Timing::T3, "v5-kiai")] };
+    let shapes: Vec<(u32, bool)> = if ctx.quick() { vec![(3, false)] } else { vec![(3, true), (4, false)] };
     for (version, timing, tag) in variants {
+      for &(n_max, wide) in &shapes {
         let mut opts = UniOpts::new(n_max);
         opts.cfgs = vec![ModeCfg { src: 0, dst: 0 }];
-        opts.kinds_std = if ctx.quick() { vec![Kind::Circle, Kind::Slider2, Kind::Buzz, Kind::Spinner(600)] } else { vec![Kind::Circle, Kind::Slider1, Kind::Slider2, Kind::Buzz, Kind::SliderLong, Kind::Spinner(600)] };
-        opts.sounds = if ctx.quick() { vec![0, 2, 12] } else { vec![0, 2, 4, 8, 12] };
-        opts.gaps = if ctx.quick() { vec![150, 500] } else { vec![0, 150, 500, 1000] };
+        opts.kinds_std = if !wide { vec![Kind::Circle, Kind::Slider2, Kind::Buzz, Kind::Spinner(600)] } else { vec![Kind::Circle, Kind::Slider1, Kind::Slider2, Kind::Buzz, Kind::SliderLong, Kind::Spinner(600)] };
+        opts.sounds = if !wide { vec![0, 2, 12] } else { vec![0, 2, 4, 8, 12] };
+        opts.gaps = if !wide { vec![150, 500] } else { vec![0, 150, 500, 1000] };
         opts.poss = vec![PosK::Same, PosK::Far];
         opts.version = version;
         opts.timing = timing;
@@ -135,6 +137,7 @@ fn main() {
             });
         }
     }
+      }
     let _ = gen::game_mode(0);
     ctx.finish();
 }
